@@ -226,3 +226,83 @@ Proof.
           LMain false; LMain false; LMain false; LMain false; LRegister 7].
   eexists. exists 7, 1. split; [vm_compute; reflexivity|]. cbn. auto.
 Qed.
+
+(* ---------------------------------------------------------------- nothing is lost, nothing is duplicated *)
+Definition cnt (p : nat) (l : list nat) : nat := count_occ Nat.eq_dec l p.
+
+Definition tracked (p : nat) (s : sys) : nat :=
+  cnt p (queue (s_reg s)) + cnt p (s_flush s) + cnt p (map fst (s_pend s))
+  + cnt p (map (fun x => fst (fst x)) (s_handed s)) + cnt p (s_raised s).
+
+Fixpoint nreg (p : nat) (ls : list label) : nat :=
+  match ls with
+  | [] => 0
+  | LRegister q :: r => (if q =? p then 1 else 0) + nreg p r
+  | _ :: r => nreg p r
+  end.
+
+Lemma cnt_app p a b : cnt p (a ++ b) = cnt p a + cnt p b.
+Proof. unfold cnt. apply count_occ_app. Qed.
+
+Lemma cnt_cons p q l : cnt p (q :: l) = (if q =? p then 1 else 0) + cnt p l.
+Proof.
+  unfold cnt. cbn. destruct (Nat.eq_dec q p) as [->|N].
+  - rewrite Nat.eqb_refl. reflexivity.
+  - apply Nat.eqb_neq in N. rewrite N. reflexivity.
+Qed.
+
+Lemma cnt_nil p : cnt p [] = 0.
+Proof. reflexivity. Qed.
+
+Lemma tracked_register s p q :
+  tracked p (register s q) = (if q =? p then 1 else 0) + tracked p s.
+Proof.
+  unfold register, tracked. destruct (decide (s_reg s)); cbn [s_reg s_flush s_pend s_handed s_raised queue with_queue map fst].
+  - rewrite cnt_cons. lia.
+  - rewrite cnt_app, cnt_cons, cnt_nil. lia.
+  - rewrite cnt_cons. lia.
+Qed.
+
+Lemma remove_pair_cnt p q g : forall l l',
+  remove_pair q g l = Some l' -> cnt p (map fst l) = (if q =? p then 1 else 0) + cnt p (map fst l').
+Proof.
+  induction l as [|[a b] l IH]; intros l' H; cbn [remove_pair] in H; [discriminate|].
+  destruct ((a =? q) && (b =? g)) eqn:E.
+  - injection H as <-. apply andb_prop in E. destruct E as [Ea _]. apply Nat.eqb_eq in Ea. subst a.
+    cbn [map fst]. rewrite cnt_cons. reflexivity.
+  - destruct (remove_pair q g l) as [r|] eqn:Er; [|discriminate]. injection H as <-.
+    cbn [map fst]. rewrite !cnt_cons. rewrite (IH r eq_refl). lia.
+Qed.
+
+Lemma tracked_step lc p s l s' :
+  Inv lc s -> gstep lc s l = Some s' ->
+  tracked p s' = (match l with LRegister q => if q =? p then 1 else 0 | _ => 0 end) + tracked p s.
+Proof.
+  intros I H. destruct l as [q|q g| |failed]; cbn [gstep] in H.
+  - injection H as <-. apply tracked_register.
+  - destruct (remove_pair q g (s_pend s)) as [pend'|] eqn:E; [|discriminate]. injection H as <-.
+    unfold tracked. cbn [s_reg s_flush s_pend s_handed s_raised map fst].
+    rewrite cnt_cons. rewrite (remove_pair_cnt p q g _ _ E). lia.
+  - destruct (s_pc s); try discriminate; injection H as <-; reflexivity.
+  - destruct I as [T _]. unfold table_ok in T.
+    destruct (s_pc s) eqn:Ep; try (injection H as <-; reflexivity).
+    + (* Up: the queue is taken *) injection H as <-. destruct T as [_ [_ Tf]].
+      unfold tracked. cbn [s_reg s_flush s_pend s_handed s_raised queue with_queue]. rewrite Tf, cnt_nil. lia.
+    + destruct (s_flush s) as [|q rest] eqn:Ef; [injection H as <-; reflexivity|]. injection H as <-.
+      rewrite tracked_register. unfold tracked. cbn [s_reg s_flush s_pend s_handed s_raised]. rewrite Ef, cnt_cons. lia.
+    + destruct (mem _ _); [discriminate|]. injection H as <-. reflexivity.
+    + destruct failed0; injection H as <-; [destruct (lc_aclose_clears lc)|]; reflexivity.
+    + injection H as <-. destruct (lc_end_clears lc); reflexivity.
+Qed.
+
+(* every registration is accounted for exactly once: queued, being flushed, decided, handed over or raised *)
+Lemma R_conservation lc p ls s : grun lc sys0 ls = Some s -> tracked p s = nreg p ls.
+Proof.
+  assert (G : forall ls s0 s, Inv lc s0 -> grun lc s0 ls = Some s -> tracked p s = nreg p ls + tracked p s0).
+  { clear ls s. induction ls as [|l ls IH]; intros s0 s I H; cbn [grun] in H.
+    - injection H as <-. reflexivity.
+    - destruct (gstep lc s0 l) as [s1|] eqn:E; [|discriminate].
+      rewrite (IH s1 s (Inv_step _ _ _ _ I E) H). rewrite (tracked_step lc p _ _ _ I E).
+      destruct l; cbn [nreg]; lia. }
+  intros H. rewrite (G ls sys0 s (Inv0 lc) H). unfold tracked, sys0, reg0. cbn. lia.
+Qed.
